@@ -18,6 +18,9 @@ CLASSES = [
      ["sum-product", "complex-lse-sum"]),
     ("complex", dict(leaf_kinds=["emb", "poly"], weight_pz=["id"], signed=True, complex=True),
      ["complex-lse-sum"]),
+    # products of exact zeros in log space: nested Kronecker layers over units that are identically zero
+    ("kron_zero", dict(leaf_kinds=["emb", "poly"], weight_pz=["id"], signed=True, prod_kinds=["kron"], units=[1, 2]),
+     ["complex-lse-sum"]),
     ("expfam", dict(leaf_kinds=["cat_probs", "cat_softmax", "cat_logits", "bin_probs", "bin_logits",
                                 "gauss", "gauss_lp", "emb"],
                     weight_pz=["id", "softmax", "exp", "sigmoid", "softplus", "square", "scaled_sigmoid", "clamp"]),
@@ -26,7 +29,7 @@ CLASSES = [
 
 RULE = ("random hierarchical circuits (generator harness/gen.py: 1-5 variables with ids up to 17, sum arity 1-3 "
         "dense/mixing, Hadamard/Kronecker arity 2-3, 1-3 units per layer, 1-3 outputs incl. inner layers as outputs, "
-        "shared sub-circuits) x 4 parameter classes x semiring x (fold, optimize) x batch sizes {1,2,F,F+1}; "
+        "shared sub-circuits) x 5 parameter classes (one with identically-zero units under nested Kronecker products) x semiring x (fold, optimize) x batch sizes {1,2,F,F+1}; "
         "non-trivial = distinct canonical spec with at least one sum and one product layer")
 
 
@@ -100,6 +103,12 @@ def check(run: Run, tier: str, seed: int):
         spec = gen.gen_spec(srng, **o)
         if len(spec["layers"]) > (40 if tier == "quick" else 70):
             spec = gen.gen_spec(srng, nv=2, **o)
+        if cls == "kron_zero" and i % 2:
+            spec = gen.nested_kron_spec(srng, cplx=srng.random() < 0.3)
+            run.feature("nested_kron_chain", True)
+        if cls == "kron_zero" or (cls != "expfam" and i % 8 >= 4):
+            spec = gen.zero_some(spec, srng)  # exact zeros: -inf in log space
+            run.feature("exact_zero_units", True)
         feats = gen.spec_features(spec)
         nontrivial = feats["had"] + feats["kron"] > 0 and any(d["t"] == "sum" for d in spec["layers"])
         run.case(spec, nontrivial=nontrivial, sample={"class": cls, "spec": spec} if i < 2 else None,
